@@ -1071,7 +1071,19 @@ def purity_rules(prop):
         if k == 0:
             yield ob(prop + ".NOSLACK", "mir_eval/%s" % files[0], "%s:slack" % prop, True, "no tiny constant is mixed into a compared or dividing value in the %d functions reachable from the property's entry points" % len(reach))
 
-    extra = ([] if prop == "C16" else [(prop + ".NARROW", 0, narrow_rule)]) + [(prop + ".NOSLACK", 0, slack_rule)]
+    def clamp_rule(ctx):
+        reach = reach_from(ctx, files)
+        mods = sorted({q.split(".")[0] for q in reach})
+        k = 0
+        for o in rule_noclamp(prop + ".NOCLAMP", tuple(m + ".py" for m in mods))(ctx):
+            fq = o.construct.split(":")[0]
+            if fq in reach:
+                k += 1
+                yield o
+        if k == 0:
+            yield ob(prop + ".NOCLAMP", "mir_eval/%s" % files[0], "%s:clamps" % prop, True, "no clamp in the %d functions reachable from the property's entry points" % len(reach))
+
+    extra = ([] if prop == "C16" else [(prop + ".NARROW", 0, narrow_rule)]) + [(prop + ".NOSLACK", 0, slack_rule), (prop + ".NOCLAMP", 0, clamp_rule)]
     return [
         (prop + ".NOSTATE", 5, shared_reach("c15", "rule_globalstate", prop + ".NOSTATE", files)),
         (prop + ".ARGSAFE", 5, shared_reach("c15", "rule_nomut", prop + ".ARGSAFE", files)),
@@ -1079,7 +1091,7 @@ def purity_rules(prop):
     ] + extra
 
 
-BUNDLE_PARTS = ("rule_kwview", "rule_bundlekw", "rule_kwlive", "rule_keyparam", "rule_kwforward", "rule_filterimpl", "rule_decorated", "rule_roleargs", "rule_unpackorder", "rule_preproc", "rule_preproc_chord", "rule_paramlive", "rule_beattrim")
+BUNDLE_PARTS = ("rule_kwview", "rule_bundlekw", "rule_kwlive", "rule_keyparam", "rule_kwforward", "rule_filterimpl", "rule_decorated", "rule_roleargs", "rule_unpackorder", "rule_preproc", "rule_preproc_chord", "rule_paramlive", "rule_beattrim", "rule_argident")
 
 
 def bundle_rules(prop):
@@ -1259,6 +1271,60 @@ def rule_noslack(rule, files, min_sites=0):
                 rev = SLACK_REVIEWED.get((mname, fname, kind))
                 yield ob(rule, "mir_eval/%s.py:%d" % (mname, node.lineno), "%s.%s:slack-%s@%d" % (mname, fname, kind, per_fn[(fname, kind)]), rev is not None, ("reviewed: %s" % rev) if rev else "`%s` in %s: a tiny constant is mixed into a value that is compared or divided by - inputs exactly at a documented bound change sides, a documented zero-denominator case yields a huge number instead" % (ast.unparse(node)[:80], fname), node=node)
         need(n >= min_sites, rule, "no slack site found (the reviewed one vanished)")
+
+    return run
+
+
+# ------------------------------------------------------------------ NOCLAMP
+CLAMP_REVIEWED = {
+    ("alignment", "percentage_correct_segments"): "overlap length max(end - start, 0): disjoint segments contribute 0 (published)",
+    ("hierarchy", "_gauc"): "window start max(0, query - window): the window is cut at the first frame",
+    ("segment", "_adjusted_mutual_info_score"): "lower summation limit max(start, 1) of the expected-MI sum (sklearn)",
+    ("segment", "_normalized_mutual_info_score"): "NMI denominator guard (sklearn)",
+    ("transcription_velocity", "match_notes"): "velocity range max(1, max - min): constant velocities are not divided by 0",
+    ("sonify", "time_frequency"): "synthesis: negative magnitudes and a negative first sample index are cut at 0 (two sites)",
+    ("sonify", "pitch_contour"): "synthesis: negative (unvoiced) frequencies are silenced",
+}
+CLAMP_COUNTS = {("sonify", "time_frequency"): 2}
+
+
+def rule_noclamp(rule, files, min_sites=0):
+    """Scores, times, indices and window sizes are used as computed: no new `np.clip(..)` / `max(x, <number>)` /
+    `np.minimum(x, <number>)` forces a value into a range.  The five clamps of the published code are reviewed per
+    function; a clamp anywhere else turns a documented out-of-range value (a negative overlap ratio, a time outside the
+    annotation, a one-frame window, a flattened unison) into a different, valid-looking one."""
+
+    def run(ctx):
+        n = 0
+        for mname in sorted(ctx.program.modules):
+            mod = ctx.program.modules[mname]
+            if mod.path.split("mir_eval/")[-1] not in files:
+                continue
+            owner = {}
+            for fn in ast.walk(mod.tree):
+                if isinstance(fn, ast.FunctionDef):
+                    for x in ast.walk(fn):
+                        owner[x] = fn.name
+            per_fn = {}
+            for node in ast.walk(mod.tree):
+                if not isinstance(node, ast.Call) or node not in owner:
+                    continue
+                fnm = ast.unparse(node.func)
+                numeric = lambda a: (isinstance(a, ast.Constant) and isinstance(a.value, (int, float)) and not isinstance(a.value, bool)) or (isinstance(a, ast.UnaryOp) and isinstance(a.operand, ast.Constant) and isinstance(a.operand.value, (int, float)))
+                is_clamp = fnm in ("np.clip", "numpy.clip") or (fnm.endswith(".clip") and len(node.args) + len(node.keywords) >= 2) or (fnm in ("max", "min", "np.maximum", "np.minimum", "np.fmax", "np.fmin") and len(node.args) == 2 and any(numeric(a) for a in node.args))
+                if not is_clamp:
+                    continue
+                fname = owner[node]
+                n += 1
+                per_fn[fname] = per_fn.get(fname, 0) + 1
+                rev = CLAMP_REVIEWED.get((mname, fname))
+                ok = rev is not None and per_fn[fname] <= CLAMP_COUNTS.get((mname, fname), 1)
+                if not ok and fname.startswith("_"):
+                    callers = {owner.get(c) for c in ast.walk(mod.tree) if isinstance(c, ast.Call) and isinstance(c.func, ast.Name) and c.func.id == fname}
+                    if callers and all((mname, c) in CLAMP_REVIEWED for c in callers) and per_fn[fname] == 1:
+                        ok, rev = True, CLAMP_REVIEWED[(mname, sorted(callers)[0])] + " (in a helper only that function calls)"
+                yield ob(rule, "mir_eval/%s.py:%d" % (mname, node.lineno), "%s.%s:clamp@%d" % (mname, fname, per_fn[fname]), ok, ("reviewed clamp: %s" % rev) if ok else "`%s` in %s forces a value into a range the published computation does not: what lay outside is no longer reported (or rejected) as such" % (ast.unparse(node)[:80], fname), node=node)
+        need(n >= min_sites, rule, "no clamp site found (the reviewed ones vanished)")
 
     return run
 
